@@ -608,6 +608,29 @@ theorem sums_le_tokensIn {tau t : Nat} {H : Hist} (hc : Conf tau t H) (hi : Nat)
       have := ih hr (fun e he => hhi e (List.mem_cons_of_mem _ he)) hq
       omega
 
+/-- In a conforming history, an arrival of `k` tokens that comes at least `k·t` (the time in which `k`
+tokens are replenished) after every accepted arrival satisfies the GCRA condition against all of them. -/
+theorem conf_after_replenish {tau t : Nat} {H : Hist} (hc : Conf tau t H) (a k : Nat)
+    (hidle : ∀ e ∈ H, e.1 + k * t ≤ a) :
+    ∀ p ∈ sums H, (p.2 + k) * t ≤ (a - p.1) + tau := by
+  cases H with
+  | nil => intro p hp; simp [sums] at hp
+  | cons x r =>
+    obtain ⟨b, kb⟩ := x
+    obtain ⟨⟨hkb, hold⟩, hsort, _⟩ := hc
+    have hb : b + k * t ≤ a := hidle (b, kb) (by simp)
+    intro p hp
+    simp only [sums, List.mem_cons, List.mem_map] at hp
+    rcases hp with rfl | ⟨q, hq, rfl⟩
+    · simp only []
+      rw [Nat.add_mul]; omega
+    · simp only []
+      obtain ⟨e, he, heq⟩ := sums_time_mem hq
+      have hqb : q.1 ≤ b := by have := hsort e he; omega
+      have h1 := hold q hq
+      have : (q.2 + kb + k) * t = (q.2 + kb) * t + k * t := Nat.add_mul _ _ _
+      rw [this]; omega
+
 theorem offered_suffix (key : κ) (H : Hist) (es : List (Ev κ)) :
     ∃ pre, offered key H es = pre ++ H := by
   induction es generalizing H with
